@@ -416,6 +416,20 @@ func runC12Streams(c *Ctx) []Violation {
 	target := sch.TD["FINAL_OUTPUT"].XPath
 	input := w.Input
 	plan := simio.DrawPlan(c.T, input)
+	var desc []string
+	if c.T.Chance("c12s.root-target", 1, 5) {
+		// the stream node is the document node itself: one record, which is also the reader's root
+		target = c.T.Pick("c12s.root-target.xpath", ".", "/")
+		desc = append(desc, "stream xpath "+target+" (the document node is the record)")
+		c.Count("streams.document-node-is-the-record", 1)
+	}
+	// a caller that never calls Release: both readers release what they returned when Read is called
+	// again ("in case Release isn't called"), which makes this a supported way of using them
+	lazy := c.T.Chance("c12s.no-release", 1, 3)
+	if lazy {
+		desc = append(desc, "the caller never calls Release (the next Read releases what the last one returned)")
+		c.Count("streams.caller-never-releases", 1)
+	}
 	nFail := c.T.Weighted("c12s.transient-failures", 1, 2, 2, 2, 1)
 	failAt := map[int]bool{}
 	for i := 0; i < nFail; i++ {
@@ -426,7 +440,6 @@ func runC12Streams(c *Ctx) []Violation {
 			failAt[k+1] = true
 		}
 	}
-	var desc []string
 	if nFail > 0 {
 		desc = append(desc, fmt.Sprintf("input reader fails once before its calls %v and then carries on", keysOf(failAt)))
 	}
@@ -460,6 +473,9 @@ func runC12Streams(c *Ctx) []Violation {
 			panic("harness: NewXMLStreamReader: " + err.Error())
 		}
 		read, release = sp.Read, sp.Release
+	}
+	if lazy {
+		release = func(*idr.Node) {}
 	}
 	c.Count("part.streams", 1)
 	// every error but the end of the input is followed by another try (bounded by the loop's read limit
